@@ -16,8 +16,8 @@ import vlib
 from vlib import SPEC, OUT
 
 PID = "C09"
-FAMS = ["pow", "powT", "koch", "sqp", "sqn", "ip"]
-GROUPS = {"power": ["pow", "powT", "koch"], "roots": ["sqp", "sqn"], "interp": ["ip"]}     # one TLC run (one JVM) per group
+FAMS = ["pow", "powT", "koch", "sqp", "sqn", "ip", "big"]
+GROUPS = {"power": ["pow", "powT", "koch"], "roots": ["sqp", "sqn"], "interp": ["ip", "big"]}     # one TLC run (one JVM) per group
 GROUP_OF = {f: g for g, fs in GROUPS.items() for f in fs}
 SECTIONS = ["gen,conv,big", "rpow,rsq,rip"]                                                 # one recorded trace + one TLC run each
 # several JVMs run side by side on a shared machine: keep their helper threads few
@@ -81,6 +81,10 @@ def call_of(L):
         return {"f": "ip", "q": L["q"], "a": L["a"], "bs": [x[1] for x in L["fb"]]}
     if f == "ipc":
         return {"f": "ip", "q": L["q"], "a": L["a"], "bs": L["bs"]}
+    if f == "big":
+        ops = [{"op": h[0], "d": h[1], "s": h[2], "u": h[3], "mx": h[4]} for h in L["hist"]]
+        ops += [{"op": o[0], "d": o[1], "s": o[2] if o[0] == "cmp" else 0, "u": 0 if o[0] == "cmp" else o[2], "mx": 0} for o in L["obs"]]
+        return {"f": "big", "init": L["init"], "ops": ops}
     raise vlib.Infra("unknown family " + f)
 
 def cmp_pow(L, R, F, stats):
@@ -224,7 +228,43 @@ def cmp_ip(L, R, F, stats):
                     a, b, q, o.get("ret"), o.get("f")), {"a": a, "b": b, "q": q, "observed": o})
             stats["keys"].append(("ipc", q, tuple(a), tuple(b)))
 
-CMP = {"pow": cmp_pow, "powT": cmp_powT, "koch": cmp_koch, "sqp": cmp_sqp, "sqn": cmp_sqn, "ip": cmp_ip, "ipc": cmp_ip}
+REFUSED = -2000000000
+def cmp_big(L, R, F, stats):
+    evs = R["r"]
+    nh = len(L["hist"])
+    seq = [[h[0], h[1], h[2], h[3], h[4]] for h in L["hist"]]
+    def bad(what, i, ev):
+        F.add("bigint:%s" % ev["op"], "TMCG_Bigint registers %s, operations %s: %s" % (L["init"], seq[:i + 1] if i < nh else seq + [[ev["op"], ev["d"], ev["s"], ev["u"]]], what),
+              {"init": L["init"], "operations": seq[:i + 1] if i < nh else seq, "last": {k: ev.get(k) for k in ("op", "d", "s", "u", "mx", "pv", "sv", "pc", "sc", "pr", "sr", "psz", "ssz", "pui", "sui", "ppr")}})
+    for i, h in enumerate(L["hist"]):
+        ev = evs[i]
+        op, d, s_, u, mx, val, sref, rs = h
+        stats["n"] += 1
+        if ev["pv"] != val or ev["pr"] != rs:
+            bad("plain back end: register %d is %s (registers %s), spec %s (%s)" % (d, ev["pv"], ev["pr"], val, rs), i, ev)
+        elif not (ev["sv"] == val or (sref and ev["sv"] == REFUSED)) or ev["sr"] != rs:
+            bad("secure back end: register %d is %s (registers %s), spec and plain back end %s (%s)" % (d, ev["sv"], ev["sr"], val, rs), i, ev)
+    for j, o in enumerate(L["obs"]):
+        ev = evs[nh + j]
+        stats["n"] += 1
+        if o[0] == "cmp":
+            want = o[3]
+            if ev["pc"] != want:
+                bad("plain back end: comparisons [==,!=,>,<,>=,<=] of register %d with register %d give %s, spec %s" % (o[1], o[2], ev["pc"], want), nh, ev)
+            elif ev["sc"] != want:
+                bad("secure back end: comparisons [==,!=,>,<,>=,<=] of register %d with register %d give %s, spec and plain back end %s" % (o[1], o[2], ev["sc"], want), nh, ev)
+        else:
+            want, bits, x, prime = o[3], o[4], o[5], o[6]
+            if ev["pc"] != want or ev["psz"] != bits or ev["pui"] != x or ev["ppr"] != prime:
+                bad("plain back end: register %d observed as cmp-with-%d %s size %s get_ui %s prime %s; spec %s %s %s %s" % (
+                    o[1], o[2], ev["pc"], ev["psz"], ev["pui"], ev["ppr"], want, bits, x, prime), nh, ev)
+            elif ev["sc"][:4] != want[:4] or ev["sc"][4] not in (want[4], -1) or ev["ssz"] != bits or ev["sui"] != x:
+                bad("secure back end: register %d observed as cmp-with-%d %s size %s get_ui %s; spec %s %s %s" % (
+                    o[1], o[2], ev["sc"], ev["ssz"], ev["sui"], want, bits, x), nh, ev)
+    if nh >= 2 or (nh == 1 and L["hist"][0][0] not in ("set_ui",)):
+        stats["keys"].append(("big", tuple(L["init"]), json.dumps(seq)))
+
+CMP = {"big": cmp_big, "pow": cmp_pow, "powT": cmp_powT, "koch": cmp_koch, "sqp": cmp_sqp, "sqn": cmp_sqn, "ip": cmp_ip, "ipc": cmp_ip}
 
 def run_cases(exe, tag, lines):
     """hand the cases to the driver, look the raw results up in the lines printed by TLC"""
@@ -251,7 +291,7 @@ def group_A(exe, group, tier, info, only=None):
     """one TLC run enumerates the families of the group; every family's cases then go through the driver"""
     cfg = "GEN_Arith_%s_%s.cfg" % (group, "q" if tier == "quick" else "t")
     t0 = time.time()
-    r = vlib.tlc("ArithGen", cfg, workers=4 if tier == "quick" else 6, timeout=1200 if tier == "quick" else 3000, xmx="6g", env=JENV)
+    r = vlib.tlc("ArithGen", cfg, workers={"power": 5, "roots": 3, "interp": 4}[group] if tier == "quick" else 6, timeout=1200 if tier == "quick" else 3000, xmx="6g", env=JENV)
     if r.error:
         raise vlib.Infra("TLC %s: %s" % (cfg, r.error))
     vlib.log("TLC %s: %d states, %.0fs" % (cfg, r.distinct, r.wall))
@@ -267,7 +307,7 @@ def group_A(exe, group, tier, info, only=None):
             raise vlib.Infra("TLC %s printed no cases of family %s" % (cfg, fam))
         if fam == "powT" and fl[0]["T"] != info["T"]:
             raise vlib.Infra("table limit of the spec (%s) is not TMCG_MAX_FPOWM_T of the library (%s)" % (fl[0]["T"], info["T"]))
-        fl.sort(key=lambda L: (L["f"], L.get("m", 0), L.get("b", 0), L.get("e", 0), L.get("p", 0), L.get("q", 0), L.get("a", [])))
+        fl.sort(key=lambda L: (L["f"], L.get("m", 0), L.get("b", 0), L.get("e", 0), L.get("p", 0), L.get("q", 0), L.get("a", []), L.get("init", []), json.dumps(L.get("hist", 0))))
         t1 = time.time()
         F, stats, wall = run_cases(exe, fam, fl)
         vlib.log("family %s: %d cases, driver %.0fs, lookup %.0fs" % (fam, len(fl), wall, time.time() - t1 - wall))
@@ -322,9 +362,18 @@ def section_B(exe, sec, tier, seed):
         raise vlib.Infra("empty trace for section " + sec)
     r, bad = validate_trace(sec, tp)
     if bad:
-        # a rejection is reported only if a second TLC run on the same file repeats it
-        r2, bad2 = validate_trace(sec + "-again", tp)
-        if sorted(x["bad"] for x in bad) != sorted(x["bad"] for x in bad2):
+        # a rejection is reported only if a second TLC run repeats it (on the executions that contain a bad event)
+        badlines = set(x["bad"] for x in bad)
+        execs, cur = [], None
+        for i, e in enumerate(evs, 1):
+            if e["e"] == "Reset":
+                cur = {"evs": [], "bad": False}; execs.append(cur)
+            cur["evs"].append(e)
+            if i in badlines: cur["bad"] = True
+        tp2 = tp.replace(".ndjson", "-bad-executions.ndjson")
+        vlib.write_ndjson(tp2, [e for x in execs if x["bad"] for e in x["evs"]])
+        r2, bad2 = validate_trace(sec + " (executions with a bad event, again)", tp2)
+        if sorted(json.dumps(x["ev"], sort_keys=True) for x in bad) != sorted(json.dumps(x["ev"], sort_keys=True) for x in bad2):
             raise vlib.Infra("trace verdicts of section %s did not repeat" % sec)
     for x in bad:
         key = classify_event(x["ev"], x["kind"])
@@ -373,7 +422,7 @@ def run(tier, seed):
                 ck.add_cases("A:" + fam, stats["n"], stats["keys"])
                 ck.part("A:" + fam, tlc_cases=len(lines), driver_wall_s=round(wall, 1))
                 allF.merge(F)
-                if fam in ("pow", "sqp", "ip"):
+                if fam in ("pow", "sqp", "ip", "big"):
                     L = next((x for x in lines if x["f"] == fam and x.get("b", 2) > 1 and x.get("p", 9) > 7 and x.get("m", 23) == 23), lines[0])
                     s = json.loads(json.dumps(L))
                     for k in list(s):          # keep the sample readable
@@ -426,7 +475,7 @@ def replay(path, seed):
         return replay(tp, seed)
     # direction A: regenerate the family of the key with TLC and run it again
     fam = obj["key"].split(":")[0]
-    fams = {"sqrt": ["sqp", "sqn"], "interpolate": ["ip"], "pow": ["pow", "powT"], "crash": FAMS}.get(fam, [fam] if fam in FAMS else FAMS)
+    fams = {"sqrt": ["sqp", "sqn"], "interpolate": ["ip"], "pow": ["pow", "powT"], "bigint": ["big"], "crash": FAMS}.get(fam, [fam] if fam in FAMS else FAMS)
     rc, so, se, _ = vlib.run_driver(exe, ["info"])
     info = json.loads(so)
     allF = Findings()
